@@ -370,7 +370,25 @@ where
             //
             // If you don't understand this...that's fine, just don't mess with
             // it. :)
-            id if filter::is_psf_downcast_marker(id) => self
+            //
+            // A branch that is an `Option::None` subscriber is neither
+            // filtered nor unfiltered; the other branch decides alone.
+            id if filter::is_psf_downcast_marker(id) => {
+                let none_marker = TypeId::of::<super::NoneLayerMarker>();
+                if self.subscriber.downcast_raw(none_marker).is_some() {
+                    self.inner.downcast_raw(id)
+                } else if self.inner.downcast_raw(none_marker).is_some() {
+                    self.subscriber.downcast_raw(id)
+                } else {
+                    self.subscriber
+                        .downcast_raw(id)
+                        .and(self.inner.downcast_raw(id))
+                }
+            }
+
+            // A tree of subscribers is only "no subscriber at all" (an
+            // `Option::None`) if both of its branches are.
+            id if id == TypeId::of::<super::NoneLayerMarker>() => self
                 .subscriber
                 .downcast_raw(id)
                 .and(self.inner.downcast_raw(id)),
